@@ -918,11 +918,19 @@ class YAMLPath:
 
                 # Replace a subset of special characters to alert users to
                 # potentially unintentional demarcation.
-                ppath += YAMLPath.ensure_escaped(
+                key_text = YAMLPath.ensure_escaped(
                     str(segment_attrs),
                     pathsep,
                     '(', ')', '[', ']', '^', '$', '%', ' ', "'", '"'
                 )
+                if (not ppath
+                    and separator is not PathSeparators.FSLASH
+                    and key_text.startswith("/")
+                ):
+                    # Lest this dot-separated path be mistaken for a
+                    # forward-slash separated one
+                    key_text = "\\" + key_text
+                ppath += key_text
             elif segment_type == PathSegmentTypes.INDEX:
                 ppath += "[{}]".format(segment_attrs)
             elif segment_type == PathSegmentTypes.MATCH_ALL:
@@ -1017,8 +1025,15 @@ class YAMLPath:
 
         Returns:  (str) `section` with all special symbols escaped
         """
-        return YAMLPath.ensure_escaped(
+        escaped = YAMLPath.ensure_escaped(
             section,
             '\\', str(pathsep), '(', ')', '[', ']', '^', '$', '%',
             ' ', "'", '"'
         )
+
+        # A leading / would otherwise switch a dot-separated path which
+        # starts with this section to forward-slash notation.
+        if pathsep is not PathSeparators.FSLASH and escaped.startswith("/"):
+            escaped = "\\" + escaped
+
+        return escaped
